@@ -96,6 +96,11 @@ def evalBin (op : Op) (a b : J) : Except EvalErr J :=
   | .or, .bool x, .bool y => .ok (.bool (x || y))
   | _, _, _ => .error .unsupported
 
+/-- the expression is a variable whose binding is Go nil: declared, value `undefined` -/
+def isUndefVar (env : Bs) : Ex → Bool
+  | .var x => (match lookupKey x env with | some .null => true | _ => false)
+  | _ => false
+
 mutual
 /-- evaluation in an environment of visible variables; left to right, as JavaScript does -/
 def eval (env : Bs) : Ex → Except EvalErr J
@@ -114,6 +119,19 @@ def eval (env : Bs) : Ex → Except EvalErr J
     | some v => .ok (.str (typeName v))
     | none => .ok (.str "undefined")
   | .bin op a b =>
+    -- strict (in)equality with a variable bound to Go nil: the variable is declared and `undefined`; `undefined === v` is
+    -- false and `undefined !== v` true for every value `v` of this family (both undefined: true / false)
+    if (op == .eq || op == .ne) && (isUndefVar env a || isUndefVar env b) then
+      if isUndefVar env a && isUndefVar env b then .ok (.bool (op == .eq))
+      else if isUndefVar env a then
+        match eval env b with
+        | .error e => .error e
+        | .ok _ => .ok (.bool (op == .ne))
+      else
+        match eval env a with
+        | .error e => .error e
+        | .ok _ => .ok (.bool (op == .ne))
+    else
     match eval env a with
     | .error e => .error e
     | .ok va =>
